@@ -54,6 +54,15 @@ pub struct SysModel {
 }
 
 impl SysModel {
+    /// Tolerance factor (in units of eps*aux) at step t: `base`, plus 2n at a step without output, where a
+    /// split can only come from annual sums over all n steps (f32 sums of n terms agree only within n*eps).
+    pub fn tol_factor(&self, t: usize, base: f64) -> f64 {
+        if self.out_tot.get(t).copied().unwrap_or(0.0) <= 0.0 {
+            base + 2.0 * self.out_tot.len() as f64
+        } else {
+            base
+        }
+    }
     pub fn aux_sum(&self) -> f64 {
         self.aux.iter().sum()
     }
@@ -171,7 +180,7 @@ fn check_parsed(b: &Building, models: &[SysModel], c: &Components) -> Result<(BT
         // conservation per step (every class: "every declared kWh still present")
         for t in 0..n {
             let got: f64 = mine.iter().map(|(_, v)| v[t]).sum();
-            let tol = 16.0 * EPS * s.aux_abs[t] + 1e-30;
+            let tol = s.tol_factor(t, 16.0) * EPS * s.aux_abs[t] + 1e-30;
             if (got - s.aux[t]).abs() > tol {
                 return Err(Violation::new(
                     "aux_conservation",
@@ -339,7 +348,7 @@ impl Property for C06 {
     fn runs(&self, tier: Tier) -> u64 {
         match tier {
             Tier::Quick => 150_000,
-            Tier::Thorough => 10_000_000,
+            Tier::Thorough => 1_500_000,
         }
     }
 
@@ -434,9 +443,11 @@ impl Property for C06 {
                 let zero = vec![0.0; n];
                 for k in keys {
                     let (a, b2) = (m0.get(k).unwrap_or(&zero), mi.get(k).unwrap_or(&zero));
-                    let scale = models.iter().find(|s| s.id == k.0).map(|s| s.aux_abs.clone()).unwrap_or_else(|| vec![0.0; n]);
+                    let model = models.iter().find(|s| s.id == k.0);
+                    let scale = model.map(|s| s.aux_abs.clone()).unwrap_or_else(|| vec![0.0; n]);
                     for t in 0..n {
-                        if (a[t] - b2[t]).abs() > 32.0 * EPS * scale[t] + 1e-30 {
+                        let factor = model.map(|s| s.tol_factor(t, 32.0)).unwrap_or(32.0);
+                        if (a[t] - b2[t]).abs() > factor * EPS * scale[t] + 1e-30 {
                             violation = Some(Violation::new(
                                 "schedule_dependence",
                                 "aux-assignment",
